@@ -155,6 +155,80 @@ func ruleStructLocksets(c *Check, rule string, progs []*Prog) {
 	if nGuarded == 0 {
 		c.Unk(rule, "guarded-fields", "", "", "anchor lost: no field written under its struct's mutex found")
 	}
+	// (b) a field that holds a stateful stream object of the standard library (a hash, a buffer, a
+	// reader / writer, a random source) changes with every use: in a struct that owns a mutex each
+	// method call on it holds the mutex exclusively — a read lock admits several users at once.
+	statefulStd := func(t types.Type) bool {
+		s := strings.TrimPrefix(t.String(), "*")
+		switch s {
+		case "hash.Hash", "hash.Hash32", "hash.Hash64", "io.Writer", "io.Reader", "io.ReadWriter", "bytes.Buffer", "strings.Builder", "bufio.Writer", "bufio.Reader", "bufio.Scanner", "math/rand.Rand", "math/rand/v2.Rand", "encoding/gob.Encoder", "encoding/gob.Decoder", "encoding/json.Encoder", "encoding/json.Decoder", "crypto/cipher.Stream", "crypto/cipher.BlockMode":
+			return true
+		}
+		return false
+	}
+	for _, key := range sortedKeys(owners) {
+		o := owners[key]
+		if o.named == nil {
+			continue
+		}
+		for _, label := range sortedKeys(o.acc) {
+			if !statefulStd(o.ftype[label]) {
+				continue
+			}
+			var bad []string
+			nUse := 0
+			for _, a := range o.acc[label] {
+				// method calls on the loaded value
+				for _, r := range *a.in.Referrers() {
+					ld, ok := r.(*ssa.UnOp)
+					if !ok || ld.Referrers() == nil {
+						continue
+					}
+					for _, rr := range *ld.Referrers() {
+						ci, ok := rr.(ssa.CallInstruction)
+						if !ok {
+							continue
+						}
+						cc := ci.Common()
+						used := cc.IsInvoke() && cc.Value == ssa.Value(ld)
+						for _, arg := range cc.Args {
+							if arg == ssa.Value(ld) {
+								used = true // a method call on it, or it is handed to a function that will use it
+							}
+						}
+						if !used {
+							continue
+						}
+						nUse++
+						g := BuildECFG(a.p, a.fn, ExpandOpts{MaxDepth: 0})
+						okHeld := false
+						for _, nd := range g.Nodes {
+							if nd.In == ssa.Instruction(ci) && nd.Kind == NInstr {
+								for _, mu := range o.mus {
+									if heldAtMode(g, nd, mu, true) {
+										okHeld = true
+									}
+								}
+							}
+						}
+						if !okHeld {
+							bad = append(bad, fnShort(a.fn)+"@"+a.p.InstrPos(ci))
+						}
+					}
+				}
+			}
+			if nUse == 0 {
+				continue
+			}
+			sort.Strings(bad)
+			inst := shortName(key) + "." + label + " ⟂ stateful object used under the exclusive lock"
+			if len(bad) == 0 {
+				c.OK(rule, inst, "", o.acc[label][0].p.InstrPos(o.acc[label][0].in), fmt.Sprintf("%d uses, each with the mutex held exclusively", nUse), true)
+			} else {
+				c.Bad(rule, inst, "", o.acc[label][0].p.InstrPos(o.acc[label][0].in), "the field holds a "+o.ftype[label].String()+", which changes with every use, and its methods are called without the struct's mutex held exclusively (a read lock admits several callers at once) at: "+strings.Join(bad, ", ")+" — concurrent callers interleave on its internal state", nil)
+			}
+		}
+	}
 }
 
 // fieldAddrWritten: the address is stored to, or a nested element/field of it is, or the map /
@@ -205,4 +279,195 @@ func fieldAddrWritten(fa *ssa.FieldAddr) bool {
 		return false
 	}
 	return addrWritten(fa, 0)
+}
+
+// ruleNoSharedPackageState (C13-R12): package-level variables are shared by every goroutine of the
+// process — all worker loops, the RPC handlers, the P2P library's goroutines. The node's packages
+// keep none that changes: (1) no package-level variable is stored to, and no element of a slice /
+// entry of a map held in one is written, outside the package initialiser; (2) none holds a stateful
+// object — a value of an interface type other than error, or a pointer to a type of another module
+// — on which methods are invoked at run time (directly, or after it is handed to a function of the
+// repository), unless its initialiser builds a value of a type known to be safe for concurrent use.
+func ruleNoSharedPackageState(c *Check, rule string, progs []*Prog) {
+	safeInit := func(name string) bool {
+		for _, pre := range []string{"errors.New", "fmt.Errorf", "regexp.MustCompile", "regexp.Compile", "github.com/prometheus/", "github.com/ipfs/go-log", "github.com/ipfs/go-datastore.NewKey", "sync.", "sync/atomic."} {
+			if strings.HasPrefix(strings.TrimPrefix(name, "("), pre) || strings.HasPrefix(strings.TrimPrefix(name, "(*"), pre) {
+				return true
+			}
+		}
+		return false
+	}
+	seen := map[string]bool{}
+	n := 0
+	for _, p := range progs {
+		for _, pkg := range p.SSA.AllPackages() {
+			pp := pkg.Pkg.Path()
+			if !strings.HasPrefix(pp, rootPath) || strings.Contains(pp, "/test/") || strings.Contains(pp, "/mocks") || strings.Contains(pp, "/pb/") || strings.HasSuffix(pp, "/bench") || strings.Contains(pp, "/cmd") || p.byPkg[pp] == nil {
+				continue
+			}
+			initFn := pkg.Func("init")
+			for _, mem := range pkg.Members {
+				gl, ok := mem.(*ssa.Global)
+				if !ok || seen[pp+"."+gl.Name()] || strings.HasPrefix(gl.Name(), "init$") || gl.Name() == "_" {
+					continue
+				}
+				seen[pp+"."+gl.Name()] = true
+				et := gl.Type().(*types.Pointer).Elem()
+				if selfSync(et) {
+					continue
+				}
+				n++
+				inst := shortName(pp) + "." + gl.Name()
+				var writes, calls []string
+				// what the initialiser stores
+				initName := ""
+				if initFn != nil {
+					for _, b := range initFn.Blocks {
+						for _, in := range b.Instrs {
+							if st, ok := in.(*ssa.Store); ok && st.Addr == ssa.Value(gl) {
+								v := st.Val
+								for {
+									switch x := v.(type) {
+									case *ssa.MakeInterface:
+										v = x.X
+										continue
+									case *ssa.ChangeInterface:
+										v = x.X
+										continue
+									}
+									break
+								}
+								if call, ok := v.(*ssa.Call); ok {
+									initName = commonName(call.Common())
+								}
+							}
+						}
+					}
+				}
+				stateful := false
+				if _, isIface := et.Underlying().(*types.Interface); isIface && et.String() != "error" {
+					stateful = true
+				}
+				if pt, isPtr := et.Underlying().(*types.Pointer); isPtr {
+					if nt, ok := pt.Elem().(*types.Named); ok && nt.Obj().Pkg() != nil && !strings.HasPrefix(nt.Obj().Pkg().Path(), rootPath) {
+						stateful = true
+					}
+				}
+				if stateful && safeInit(initName) {
+					stateful = false
+				}
+				var follow func(v ssa.Value, fn *ssa.Function, depth int)
+				follow = func(v ssa.Value, fn *ssa.Function, depth int) {
+					if v.Referrers() == nil || depth > 2 {
+						return
+					}
+					for _, r := range *v.Referrers() {
+						switch x := r.(type) {
+						case *ssa.MapUpdate:
+							if x.Map == v {
+								writes = append(writes, "map update in "+fnShort(fn)+"@"+p.InstrPos(x))
+							}
+						case *ssa.IndexAddr:
+							if x.X == v && fieldAddrLikeWritten(x) {
+								writes = append(writes, "element store in "+fnShort(fn)+"@"+p.InstrPos(x))
+							}
+						case ssa.CallInstruction:
+							cc := x.Common()
+							if !stateful {
+								continue
+							}
+							if cc.IsInvoke() && cc.Value == v {
+								calls = append(calls, cc.Method.Name()+" in "+fnShort(fn)+"@"+p.InstrPos(x))
+								continue
+							}
+							callee := cc.StaticCallee()
+							if callee == nil {
+								continue
+							}
+							for i, a := range cc.Args {
+								if a != v {
+									continue
+								}
+								if callee.Signature.Recv() != nil && i == 0 {
+									calls = append(calls, callee.Name()+" in "+fnShort(fn)+"@"+p.InstrPos(x))
+								} else if p.InRepo(callee) && callee.Blocks != nil && i < len(callee.Params) {
+									follow(callee.Params[i], callee, depth+1)
+								}
+							}
+						case *ssa.MakeInterface:
+							follow(x, fn, depth)
+						case *ssa.ChangeInterface:
+							follow(x, fn, depth)
+						case *ssa.Phi:
+							follow(x, fn, depth+1)
+						}
+					}
+				}
+				for _, fn := range p.Funcs {
+					if fn == initFn || fn.Blocks == nil || (fn.Synthetic != "" && strings.HasPrefix(fn.Name(), "init")) {
+						continue
+					}
+					for _, b := range fn.Blocks {
+						for _, in := range b.Instrs {
+							switch x := in.(type) {
+							case *ssa.Store:
+								if x.Addr == ssa.Value(gl) {
+									writes = append(writes, "store in "+fnShort(fn)+"@"+p.InstrPos(x))
+								}
+							case *ssa.UnOp:
+								if x.X == ssa.Value(gl) {
+									follow(x, fn, 0)
+								}
+							case *ssa.FieldAddr:
+								if x.X == ssa.Value(gl) && fieldAddrWritten(x) {
+									writes = append(writes, "field store in "+fnShort(fn)+"@"+p.InstrPos(x))
+								}
+							case *ssa.IndexAddr:
+								if x.X == ssa.Value(gl) && fieldAddrLikeWritten(x) {
+									writes = append(writes, "element store in "+fnShort(fn)+"@"+p.InstrPos(x))
+								}
+							}
+						}
+					}
+				}
+				sort.Strings(writes)
+				sort.Strings(calls)
+				switch {
+				case len(writes) > 0:
+					c.Bad(rule, inst, "", p.Pos(gl.Pos()), "the package-level variable is written after initialisation ("+strings.Join(writes, ", ")+"): every goroutine of the process shares it, and nothing orders the write with the other goroutines' reads", nil)
+				case len(calls) > 0:
+					c.Bad(rule, inst, "", p.Pos(gl.Pos()), "the package-level variable holds one stateful object (initialised by "+initName+") whose methods are invoked at run time ("+strings.Join(calls, ", ")+"): every worker loop and library goroutine that gets here uses the same object concurrently — a data race on its internal state", nil)
+				default:
+					c.OK(rule, inst, "", p.Pos(gl.Pos()), "never written after initialisation; no method of a shared stateful object is invoked", false)
+				}
+			}
+		}
+	}
+	if n == 0 {
+		c.Unk(rule, "package-level variables", "", "", "anchor lost: no package-level variable found")
+	}
+}
+
+// fieldAddrLikeWritten: an element address is stored to (directly or through nested addresses).
+func fieldAddrLikeWritten(ia *ssa.IndexAddr) bool {
+	if ia.Referrers() == nil {
+		return false
+	}
+	for _, r := range *ia.Referrers() {
+		switch x := r.(type) {
+		case *ssa.Store:
+			if x.Addr == ssa.Value(ia) {
+				return true
+			}
+		case *ssa.FieldAddr:
+			if x.X == ssa.Value(ia) && fieldAddrWritten(x) {
+				return true
+			}
+		case *ssa.IndexAddr:
+			if x.X == ssa.Value(ia) && fieldAddrLikeWritten(x) {
+				return true
+			}
+		}
+	}
+	return false
 }
